@@ -32,7 +32,12 @@ def _mods():
 
 def mutate(rng: random.Random, data: bytes) -> tuple[str, bytes]:
     b = bytearray(data)
-    k = rng.randrange(10)
+    k = rng.randrange(11)
+    if k == 10:
+        # large body (beyond typical buffer / size thresholds), garbage or a valid header + garbage
+        n = rng.choice([4097, 8192, 8193, 16384, 65536, 70001])
+        body = bytes(rng.randrange(256) for _ in range(64)) * (n // 64 + 1)
+        return 'big', bytes(b[:8]) + body[:n]
     if k == 0 and len(b) > 0:
         return 'truncate', bytes(b[:rng.randrange(len(b))])
     if k == 1 and len(b) > 8:
@@ -184,7 +189,15 @@ def stream_case(rng: random.Random, table: list, m, p) -> dict:
         vals = wc.gen_message(rng, table[idx])
         data = wc.build(m, p, table[idx], vals).serialize()
         tag = 'valid'
-        if rng.random() < 0.45:
+        if rng.random() < 0.05:
+            # a large but perfectly valid message (long string field) when the class has one
+            big = [i for i, f in enumerate(table[idx]['fields']) if f['ty'] == {'prim': 'str'} and f['cond'][0] == 'always' and not f['optional']]
+            if big:
+                vals = wc.gen_message(rng, table[idx])
+                vals[big[0]] = ('S', 'x' * rng.choice([4100, 9000, 66000]))
+                data = wc.build(m, p, table[idx], vals).serialize()
+                tag = 'valid-big'
+        elif rng.random() < 0.45:
             tag, data = mutate(rng, data)
             data = fix_len(data)           # well-formed prefix, arbitrary body
             if len(data) > 4 and data[4] in (0x05, 0x09, 0x25) and fam == 'peer':
@@ -266,7 +279,7 @@ def eval_client(case: dict) -> dict:
             c.events.register(MessageReceivedEvent, on_msg)
             await c.start()
             await c.login()
-            await simloop.advance(1)
+            await asyncio.sleep(1)
             sc = c.network.server_connection
             base = out['received']
             for k, (idx, vals) in enumerate(case['msgs']):
@@ -277,8 +290,8 @@ def eval_client(case: dict) -> dict:
                 before = out['received']
                 srv.send(data)
                 out['sent'] += 1
-                await simloop.settle()
-                await simloop.advance(0.01)
+                await asyncio.sleep(0.01)      # (a server-sent interval of 0 makes a background task spin on
+                await asyncio.sleep(0.01)      #  sleep(0): the loop never quiesces; time advances by `tick`)
                 task = sc._reader_task
                 dead = task is None or task.done()
                 if (dead and sc.state == ConnectionState.CONNECTED) or out['received'] == before:
@@ -292,7 +305,7 @@ def eval_client(case: dict) -> dict:
             net.uninstall()
 
     try:
-        simloop.run(main, wall_timeout=30)
+        simloop.run(main, wall_timeout=30, tick=1e-4)
     except Exception as e:  # noqa: BLE001
         out['exc'] = f'{type(e).__name__}: {e}'
     return out
